@@ -5,7 +5,7 @@ export VERIF_EVIDENCE_DIR=/verif/.scratch/evidence_seeded   # evidence/ is for r
 name="$1"; prop="${2:-$(echo "$name" | cut -c1-3)}"; tier="${3:-quick}"
 git -C /repo apply "/verif/seeded/$name/patch.diff" || exit 2
 ./check "$prop" "$tier" > "/tmp/oneseed_$name.log" 2>&1; rc=$?
-git -C /repo checkout -- .
+git -C /repo checkout -- .; git -C /repo clean -fdq -e google_vizier.egg-info -- vizier   # files a seeded change may have created (e.g. a database file in the source tree)
 PYTHONPATH=/verif /venv/bin/python -m harness.gen_all >/dev/null 2>&1
 grep -m3 "VIOLATION" "/tmp/oneseed_$name.log" | cut -c1-300
 tail -1 "/tmp/oneseed_$name.log" | cut -c1-200
